@@ -4,6 +4,8 @@ import GeoVerif.Model.Clenshaw
 import GeoVerif.Spec.RealInst
 import GeoVerif.Model.GeodLine
 import GeoVerif.Proofs.GeodLine
+import GeoVerif.Model.GeodLineExact
+import GeoVerif.Proofs.GeodLineExact
 import Mathlib.Tactic.LinearCombination
 import Mathlib.Tactic.Positivity
 import Mathlib.Tactic.NormNum
@@ -332,5 +334,457 @@ example : (exLine.ssig1 = sin 0 ∧ exLine.csig1 = cos 0) ∧ exLine.B11 = dsumS
   exact this
 
 end Solver
+
+/-! ## Longitude unrolling of the series line: `lon2 − lon1` counts circuits and does not look at `lon1` -/
+
+section SeriesUnroll
+open GeoVerif.GeodLengths GeoVerif.GeodLine GeoVerif.Proofs.GeodLine GeoVerif.Proofs.GeodLineX
+
+/-- **the start longitude enters the result only as the term that is added at the end**: for a line whose `lon1` is replaced by
+    any `x` (reduced to `[−180, 180]` or not), the unrolled `lon2 − lon1` and every other output of `GenPosition` are the same.
+    So `LONG_UNROLL` returns `lon1 + (unrolled λ12)` with the un-normalised `lon1` the line was given. -/
+theorem genpos_lon1_translation (L : Line ℝ) (x : ℝ) (arcmode : Bool) (s sk ck : ℝ) (un : Bool) :
+    let P := genPosition L arcmode s sk ck un
+    let Q := genPosition { L with lon1 := x } arcmode s sk ck un
+    Q.lon2u = x + P.lon12 ∧ P.lon2u = L.lon1 + P.lon12 ∧ Q.lon12 = P.lon12 ∧ Q.lat2 = P.lat2 ∧ Q.azi2 = P.azi2 ∧ Q.s12 = P.s12 ∧ Q.a12 = P.a12 ∧
+    Q.m12 = P.m12 ∧ Q.M12 = P.M12 ∧ Q.M21 = P.M21 ∧ Q.S12 = P.S12 :=
+  ⟨rfl, rfl, rfl, rfl, rfl, rfl, rfl, rfl, rfl, rfl, rfl⟩
+
+/-- **each circuit of the auxiliary sphere adds the same longitude**: in arc mode `a12 + 360` (same `sincosd` values) moves the
+    unrolled `lon2` by exactly `360·(E + A3c)` degrees, `E = ±1` the sense (sign of `sin α0`) — a whole turn in the sense of the
+    line, less the ellipsoidal correction `−f sin α0 A3` per turn — while the reduced longitude difference (no `LONG_UNROLL`)
+    sees only the correction.  Together with `genpos_zero_arc` this is what "`lon2 − lon1` counts the number and sense of circuits" means
+    for the formula as coded. -/
+theorem genpos_arc_circuit_lon (L : Line ℝ) (a12 sk ck : ℝ) :
+    let P := genPosition L true a12 sk ck true
+    let Q := genPosition L true (a12 + 360) sk ck true
+    let p := genPosition L true a12 sk ck false
+    let q := genPosition L true (a12 + 360) sk ck false
+    Q.lon2u - P.lon2u = 360 * (copysign 1 L.salp0 + L.A3c) ∧ q.lon12 - p.lon12 = 360 * L.A3c := by
+  intro P Q p q
+  have e0 (x : ℝ) : (arcOf L true x sk ck).1 = x * degree := by unfold arcOf; simp
+  have e1 (x : ℝ) : (arcOf L true x sk ck).2.1 = sk := by unfold arcOf; simp
+  have e2 (x : ℝ) : (arcOf L true x sk ck).2.2.1 = ck := by unfold arcOf; simp
+  have hd := degree_ne
+  constructor
+  · simp only [P, Q, genPosition, e0, e1, e2, if_true, lit_real, Nat.cast_one]
+    field_simp
+    ring
+  · simp only [p, q, genPosition, e0, e1, e2, Bool.false_eq_true, if_false, lit_real, Nat.cast_one]
+    field_simp
+    ring
+
+/-- **a zero-length arc does not move**: with `(sk, ck) = (0, 1)`, on a line whose `B31` is the `C3` series at `σ1` and whose
+    `(somg1, comg1)` is a positive multiple of `(sin α0 sin σ1, cos σ1)` (as `LineInit` leaves them: the common factor is the norm of
+    `(sbet1, cbet1 calp1)`), away from the degenerate end point: the unrolled longitude is `lon1` -/
+theorem genpos_zero_arc (L : Line ℝ) (hB : L.B31 = sinCosSeries true L.ssig1 L.csig1 L.C3a)
+    (hω : ∃ r : ℝ, 0 < r ∧ L.somg1 = r * (L.salp0 * L.ssig1) ∧ L.comg1 = r * L.csig1)
+    (hnd : RealLike.hypot L.salp0 (L.calp0 * L.csig1) ≠ 0) :
+    (genPosition L true 0 0 1 true).lon2u = L.lon1 ∧ (genPosition L true 0 0 1 true).lon12 = 0 := by
+  have e0 : (arcOf L true 0 0 1).1 = 0 * degree := by unfold arcOf; simp
+  have e1 : (arcOf L true 0 0 1).2.1 = 0 := by unfold arcOf; simp
+  have e2 : (arcOf L true 0 0 1).2.2.1 = 1 := by unfold arcOf; simp
+  have hnd' : (RealLike.hypot L.salp0 (L.calp0 * L.csig1) = 0) = False := eq_false hnd
+  obtain ⟨r, hr, ho, hc⟩ := hω
+  have hat : RealLike.atan2 (copysign 1 L.salp0 * L.somg1) L.comg1 = RealLike.atan2 (copysign 1 L.salp0 * (L.salp0 * L.ssig1)) L.csig1 := by
+    rw [ho, hc, show copysign 1 L.salp0 * (r * (L.salp0 * L.ssig1)) = r * (copysign 1 L.salp0 * (L.salp0 * L.ssig1)) by ring]
+    exact atan2_pos_mul r _ _ hr
+  have key : (genPosition L true 0 0 1 true).lon12 = 0 := by
+    simp only [genPosition, e0, e1, e2, if_true, lit_real, Nat.cast_one, Nat.cast_zero, eqb_real, decide_eq_true_eq, mul_one, mul_zero,
+      add_zero, sub_zero, zero_mul, hnd', if_false, hB, sub_self, zero_add, zero_div, hat]
+  have h2 : (genPosition L true 0 0 1 true).lon2u = L.lon1 + (genPosition L true 0 0 1 true).lon12 := rfl
+  exact ⟨by rw [h2, key, add_zero], key⟩
+
+example : exLine.B31 = sinCosSeries true exLine.ssig1 exLine.csig1 exLine.C3a ∧
+    (∃ r : ℝ, 0 < r ∧ exLine.somg1 = r * (exLine.salp0 * exLine.ssig1) ∧ exLine.comg1 = r * exLine.csig1) ∧
+    RealLike.hypot exLine.salp0 (exLine.calp0 * exLine.csig1) ≠ 0 := by
+  refine ⟨?_, ⟨1, one_pos, by simp [exLine], by simp [exLine]⟩, by simp [exLine, hypot_real]⟩
+  simp [exLine, sinCosSeries, clen, ofNat_real]
+
+/-- **the unrolled longitude is the continuous branch** (series line): with `LONG_UNROLL` the spherical longitude difference `ω12` as coded,
+    `E (σ12 − (atan2(sin σ2, cos σ2) − atan2(sin σ1, cos σ1)) + (atan2(E sin α0 sin σ2, cos σ2) − atan2(E somg1, comg1)))`, differs from `E·σ12`
+    by less than half a turn **for every σ12, of any number of circuits** — the two wrapped differences cancel each other's jumps:
+    `ω12 = E (σ12 + δ(σ2) − δ(σ1))`, `|δ| < π/2` (`atan2_scale_bound`).  Since `ω12 = 0` at `σ12 = 0` (`genpos_zero_arc`) and each circuit adds
+    exactly one turn (`genpos_arc_circuit_lon`), `lon2 − lon1` counts the true number and sense (`E = sign sin α0`) of circuits.
+    Hypotheses: unit `(ssig1, csig1)`, a non-degenerate end point, a non-meridional line (`sin α0 ≠ 0`), and `(somg1, comg1)` a positive multiple
+    of `(sin α0 sin σ1, cos σ1)` as `LineInit` leaves them. -/
+theorem genpos_unroll_within_half_turn (L : Line ℝ) (arcmode : Bool) (s sk ck : ℝ)
+    (h1 : L.ssig1 ^ 2 + L.csig1 ^ 2 = 1) (hk : arcmode = true → sk ^ 2 + ck ^ 2 = 1)
+    (hnd : NonDegenerate L arcmode s sk ck) (hs0 : L.salp0 ≠ 0)
+    (hω : ∃ r : ℝ, 0 < r ∧ L.somg1 = r * (L.salp0 * L.ssig1) ∧ L.comg1 = r * L.csig1) :
+    let P := genPosition L arcmode s sk ck true
+    |P.omg12 - copysign 1 L.salp0 * P.sig12| < Real.pi := by
+  intro P
+  obtain ⟨e1, e2, _⟩ := genpos_nd L arcmode s sk ck true hnd
+  have hu2 : P.ssig2 ^ 2 + P.csig2 ^ 2 = 1 := genpos_sig2_norm L arcmode s sk ck true h1 hk hnd
+  obtain ⟨r, hr, ho, hc⟩ := hω
+  set E : ℝ := copysign 1 L.salp0 with hE
+  have hcpos : 0 < E * L.salp0 := copysign_mul_self_pos _ hs0
+  have hom : P.omg12 = E * (P.sig12 - (RealLike.atan2 P.ssig2 P.csig2 - RealLike.atan2 L.ssig1 L.csig1)
+      + (RealLike.atan2 (E * (L.salp0 * P.ssig2)) P.csig2 - RealLike.atan2 (E * L.somg1) L.comg1)) := by
+    simp only [P, genPosition, if_true, lit_real, Nat.cast_one, hE]
+  have hB1 : RealLike.atan2 (E * L.somg1) L.comg1 = RealLike.atan2 (E * L.salp0 * L.ssig1) L.csig1 := by
+    rw [ho, hc, show E * (r * (L.salp0 * L.ssig1)) = r * (E * L.salp0 * L.ssig1) by ring]
+    exact atan2_pos_mul r _ _ hr
+  have hz1 : L.ssig1 ≠ 0 ∨ L.csig1 ≠ 0 := by
+    by_contra h; push Not at h; rw [h.1, h.2] at h1; norm_num at h1
+  have hz2 : P.ssig2 ≠ 0 ∨ P.csig2 ≠ 0 := by
+    by_contra h; push Not at h; rw [h.1, h.2] at hu2; norm_num at hu2
+  have b1 := atan2_scale_bound (E * L.salp0) L.ssig1 L.csig1 hcpos hz1
+  have b2 := atan2_scale_bound (E * L.salp0) P.ssig2 P.csig2 hcpos hz2
+  have key : P.omg12 - E * P.sig12 = E * ((RealLike.atan2 (E * L.salp0 * P.ssig2) P.csig2 - RealLike.atan2 P.ssig2 P.csig2)
+      - (RealLike.atan2 (E * L.salp0 * L.ssig1) L.csig1 - RealLike.atan2 L.ssig1 L.csig1)) := by
+    rw [hom, hB1, show E * (L.salp0 * P.ssig2) = E * L.salp0 * P.ssig2 by ring]; ring
+  rw [key, abs_mul, copysign_abs_one, one_mul]
+  calc |_ - _| ≤ |RealLike.atan2 (E * L.salp0 * P.ssig2) P.csig2 - RealLike.atan2 P.ssig2 P.csig2| + |RealLike.atan2 (E * L.salp0 * L.ssig1) L.csig1 - RealLike.atan2 L.ssig1 L.csig1| := abs_sub _ _
+    _ < Real.pi := by linarith
+
+/-- non-vacuity: the equator of the unit sphere -/
+example : exLine.ssig1 ^ 2 + exLine.csig1 ^ 2 = 1 ∧ NonDegenerate exLine true 90 1 0 ∧ exLine.salp0 ≠ 0 ∧
+    (∃ r : ℝ, 0 < r ∧ exLine.somg1 = r * (exLine.salp0 * exLine.ssig1) ∧ exLine.comg1 = r * exLine.csig1) :=
+  ⟨by simp [exLine], exLine_nd _ _ _ _, by simp [exLine], 1, one_pos, by simp [exLine], by simp [exLine]⟩
+
+end SeriesUnroll
+
+/-! ## The elliptic-integral line (`Model/GeodLineExact.lean`): theorems for every kernel
+
+The same definitions are executed (running-error arithmetic) by the driver against `GeodesicExact`,
+`GeodesicLineExact::LineInit` and `GeodesicLineExact::GenPosition` (ops `xgeodconst`, `xlineinit`, `xgenpos`), with the kernels
+filled by the values of the implementation's `EllipticFunction`.  Here the kernels `K : Ell ℝ` are arbitrary. -/
+
+section ExactLine
+open GeoVerif.GeodLine GeoVerif.GeodLineX GeoVerif.Proofs.GeodLine GeoVerif.Proofs.GeodLineX
+
+/-- `LineInit` of the exact line leaves `(ssig1, csig1)` on the unit circle — for every input and every elliptic kernel -/
+theorem xlineinit_sig1_norm (g : GeodX ℝ) (K : Ell ℝ) (lon1 sbet1r cbet1r salp1 calp1 : ℝ) (ht : 0 < g.tiny) :
+    let L := (lineInitX g K lon1 sbet1r cbet1r salp1 calp1).1
+    L.ssig1 ^ 2 + L.csig1 ^ 2 = 1 := by
+  intro L
+  show (norm2 _ _).1 ^ 2 + (norm2 _ _).2 ^ 2 = 1
+  apply norm2_unit
+  simp only [lit_real, Nat.cast_zero, Nat.cast_one]
+  by_cases hs : (norm2 (sbet1r * g.f1) cbet1r).1 = 0
+  · right
+    have : 0 < RealLike.max g.tiny (norm2 (sbet1r * g.f1) cbet1r).2 := lt_of_lt_of_le ht (le_max_left _ _)
+    exact csig1p_ne _ _ _ this hs
+  · left; exact hs
+
+example : (0 : ℝ) < (geodesicX (6378137 : ℝ) (1 / 298) (1 / 10 ^ 154) (1 / 2 ^ 52)).tiny := by
+  show (0 : ℝ) < 1 / 10 ^ 154
+  positivity
+
+/-- `salp0² + calp0² = 1` off the poles, for a unit `(salp1, calp1)` -/
+theorem xlineinit_alp0_norm (g : GeodX ℝ) (K : Ell ℝ) (lon1 sbet1r cbet1r salp1 calp1 : ℝ)
+    (hb : sbet1r * g.f1 ≠ 0 ∨ cbet1r ≠ 0) (ha : salp1 ^ 2 + calp1 ^ 2 = 1)
+    (hp : g.tiny ≤ (norm2 (sbet1r * g.f1) cbet1r).2) :
+    let L := (lineInitX g K lon1 sbet1r cbet1r salp1 calp1).1
+    L.salp0 ^ 2 + L.calp0 ^ 2 = 1 := by
+  intro L
+  have hn := norm2_unit (sbet1r * g.f1) cbet1r hb
+  show (salp1 * RealLike.max g.tiny (norm2 (sbet1r * g.f1) cbet1r).2) ^ 2
+      + (RealLike.hypot calp1 (salp1 * (norm2 (sbet1r * g.f1) cbet1r).1)) ^ 2 = 1
+  have hm : RealLike.max g.tiny (norm2 (sbet1r * g.f1) cbet1r).2 = (norm2 (sbet1r * g.f1) cbet1r).2 := max_eq_right hp
+  rw [hm, hypot_real, Real.sq_sqrt (by positivity)]
+  linear_combination (salp1 ^ 2) * hn + ha
+
+example : ((0 : ℝ) * 1 ≠ 0 ∨ (1 : ℝ) ≠ 0) ∧ ((3 / 5 : ℝ) ^ 2 + (4 / 5) ^ 2 = 1) ∧ ((1 / 1000 : ℝ) ≤ (norm2 ((0 : ℝ) * 1) 1).2) := by
+  refine ⟨Or.inr one_ne_zero, by norm_num, ?_⟩
+  simp [norm2, hypot_real]
+  norm_num
+
+/-- the scaled distance of the start point as `LineInit` stores it: `(stau1, ctau1) = (sin(σ1 + E1), cos(σ1 + E1))`, `E1 = deltaE(σ1)` -/
+theorem xlineinit_tau1 (g : GeodX ℝ) (K : Ell ℝ) (lon1 sbet1r cbet1r salp1 calp1 σ1 : ℝ) :
+    let L := (lineInitX g K lon1 sbet1r cbet1r salp1 calp1).1
+    L.ssig1 = sin σ1 → L.csig1 = cos σ1 → L.stau1 = sin (σ1 + L.E1) ∧ L.ctau1 = cos (σ1 + L.E1) := by
+  intro L hs hc
+  constructor
+  · show L.ssig1 * RealLike.cos L.E1 + L.csig1 * RealLike.sin L.E1 = _
+    rw [hs, hc, sin_add]; rfl
+  · show L.csig1 * RealLike.cos L.E1 - L.ssig1 * RealLike.sin L.E1 = _
+    rw [hs, hc, cos_add]; rfl
+
+/-- `sig2 = sig1 + sig12` stays on the unit circle -/
+theorem xgenpos_sig2_norm (L : LineX ℝ) (K : Ell ℝ) (arcmode : Bool) (s sk ck : ℝ) (un : Bool)
+    (h1 : L.ssig1 ^ 2 + L.csig1 ^ 2 = 1) (hk : arcmode = true → sk ^ 2 + ck ^ 2 = 1)
+    (hnd : NonDegenerateX L K arcmode s sk ck) :
+    let P := genPositionX L K arcmode s sk ck un
+    P.ssig2 ^ 2 + P.csig2 ^ 2 = 1 := by
+  intro P
+  have ha := arcOfX_unit L K arcmode s sk ck hk
+  obtain ⟨e1, e2, _⟩ := genposX_nd L K arcmode s sk ck un hnd
+  show P.ssig2 ^ 2 + P.csig2 ^ 2 = 1
+  rw [e1, e2]
+  unfold ssig2ofX csig2preX
+  linear_combination (L.ssig1 ^ 2 + L.csig1 ^ 2) * ha + h1
+
+/-- **Clairaut's relation at the returned point** of the exact line: `sin α2 · cos β2 = sin α0` -/
+theorem xclairaut (L : LineX ℝ) (K : Ell ℝ) (arcmode : Bool) (s sk ck : ℝ) (un : Bool) (hnd : NonDegenerateX L K arcmode s sk ck) :
+    let P := genPositionX L K arcmode s sk ck un
+    P.salp2 / RealLike.hypot P.salp2 P.calp2 * P.cbet2 = L.salp0 := by
+  intro P
+  obtain ⟨_, _, h3, h4, h5, _⟩ := genposX_nd L K arcmode s sk ck un hnd
+  show P.salp2 / RealLike.hypot P.salp2 P.calp2 * P.cbet2 = L.salp0
+  rw [h4, h5, h3]
+  exact div_mul_cancel₀ _ hnd
+
+/-- the returned `(sbet2, cbet2)` is a unit vector -/
+theorem xgenpos_bet2_norm (L : LineX ℝ) (K : Ell ℝ) (arcmode : Bool) (s sk ck : ℝ) (un : Bool) (hnd : NonDegenerateX L K arcmode s sk ck)
+    (h0 : L.salp0 ^ 2 + L.calp0 ^ 2 = 1) (h1 : L.ssig1 ^ 2 + L.csig1 ^ 2 = 1) (hk : arcmode = true → sk ^ 2 + ck ^ 2 = 1) :
+    let P := genPositionX L K arcmode s sk ck un
+    P.sbet2 ^ 2 + P.cbet2 ^ 2 = 1 := by
+  intro P
+  obtain ⟨_, _, h3, _, _, h6⟩ := genposX_nd L K arcmode s sk ck un hnd
+  have ha := arcOfX_unit L K arcmode s sk ck hk
+  show P.sbet2 ^ 2 + P.cbet2 ^ 2 = 1
+  rw [h6, h3, hypot_real, Real.sq_sqrt (by positivity)]
+  unfold ssig2ofX csig2preX
+  linear_combination (L.calp0 ^ 2 * (L.ssig1 ^ 2 + L.csig1 ^ 2)) * ha + L.calp0 ^ 2 * h1 + h0
+
+example : NonDegenerateX exLineX exEll true 90 1 0 ∧ exLineX.salp0 ^ 2 + exLineX.calp0 ^ 2 = 1 ∧ exLineX.ssig1 ^ 2 + exLineX.csig1 ^ 2 = 1 :=
+  ⟨exLineX_nd _ _ _ _, by simp [exLineX], by simp [exLineX]⟩
+
+/-- **distance for a given arc**: in arc mode, with `σ12 = a12·degree`, `(ssig1, csig1) = (sin σ1, cos σ1)`, `E1 = deltaE(σ1)` (as `LineInit`
+    computes it) and the kernel `sincosd(a12) = (sin σ12, cos σ12)`: `s12 = b·E0·(τ(σ1 + σ12) − τ(σ1))` with the scaled distance
+    `τ(σ) = σ + deltaE(σ)` of the kernel — for the elliptic integral `E0·τ(σ) = E(σ)`, i.e. `s12 = b (E(σ2) − E(σ1))`.  Every kernel. -/
+theorem xgenpos_arc_s12 (L : LineX ℝ) (K : Ell ℝ) (a12 σ1 : ℝ) (un : Bool)
+    (h1 : L.ssig1 = sin σ1 ∧ L.csig1 = cos σ1) (hE1 : σ1 + L.E1 = tauOf L K σ1) :
+    let σ12 := a12 * (degree : ℝ)
+    (genPositionX L K true a12 (sin σ12) (cos σ12) un).s12 = L.b * (L.E0 * tauOf L K (σ1 + σ12) - L.E0 * tauOf L K σ1) := by
+  intro σ12
+  have hs : L.ssig1 * cos σ12 + L.csig1 * sin σ12 = sin (σ1 + σ12) := by rw [h1.1, h1.2, sin_add]
+  have hc : L.csig1 * cos σ12 - L.ssig1 * sin σ12 = cos (σ1 + σ12) := by rw [h1.1, h1.2, cos_add]
+  rw [genPositionX_arc]
+  show L.b * (L.E0 * (a12 * degree) + L.E0 * (E2arc L K (sin σ12) (cos σ12) - L.E1)) = _
+  unfold E2arc
+  rw [hs, hc, ← hE1]
+  unfold tauOf
+  ring
+
+/-- **distance mode addresses the same point as arc mode when `Einv` inverts `E`** (kernel contract `EinvInvertsE`, stated explicitly:
+    `deltaEinv(sin τ(σ), cos τ(σ)) = σ − τ(σ)` for all `σ`).  Take any arc `a12`, let arc mode return `P` (in particular the distance
+    `P.s12`); then `GenPosition(distance = P.s12)` returns **the same record**: the same `σ12` (hence `a12`, with its whole number of
+    circuits), latitude, longitudes (unrolled and reduced), azimuth, `m12`, `M12`, `M21`, `S12`.  Hypotheses on the line are those
+    `LineInit` establishes (`xlineinit_tau1`); `b ≠ 0`, `E0 ≠ 0`. -/
+theorem xgenpos_distance_inverts_arc (L : LineX ℝ) (K : Ell ℝ) (a12 σ1 : ℝ) (un : Bool)
+    (h1 : L.ssig1 = sin σ1 ∧ L.csig1 = cos σ1)
+    (hτ1 : L.stau1 = sin (σ1 + L.E1) ∧ L.ctau1 = cos (σ1 + L.E1))
+    (hb : L.b ≠ 0) (hE0 : L.E0 ≠ 0) (hinv : EinvInvertsE L K) :
+    let σ12 := a12 * (degree : ℝ)
+    let P := genPositionX L K true a12 (sin σ12) (cos σ12) un
+    genPositionX L K false P.s12 0 0 un = P := by
+  intro σ12 P
+  have hs : L.ssig1 * cos σ12 + L.csig1 * sin σ12 = sin (σ1 + σ12) := by rw [h1.1, h1.2, sin_add]
+  have hc : L.csig1 * cos σ12 - L.ssig1 * sin σ12 = cos (σ1 + σ12) := by rw [h1.1, h1.2, cos_add]
+  have hE2 : E2arc L K (sin σ12) (cos σ12) = tauOf L K (σ1 + σ12) - (σ1 + σ12) := by unfold E2arc tauOf; rw [hs, hc]; ring
+  set E2v := E2arc L K (sin σ12) (cos σ12) with hE2v
+  have hP1 : P = tailX L K un σ12 (sin σ12) (cos σ12) E2v (L.b * (L.E0 * σ12 + L.E0 * (E2v - L.E1))) a12 := genPositionX_arc L K a12 _ _ un
+  have hPs : P.s12 = L.b * (L.E0 * σ12 + L.E0 * (E2v - L.E1)) := by rw [hP1]; rfl
+  have htau : P.s12 / (L.b * L.E0) = σ12 + E2v - L.E1 := by rw [hPs]; field_simp; ring
+  have hτ2 : σ1 + L.E1 + (σ12 + E2v - L.E1) = tauOf L K (σ1 + σ12) := by rw [hE2]; ring
+  have hB : arcOfX L K false P.s12 0 0 = (σ12, sin σ12, cos σ12, E2v) := by
+    unfold arcOfX
+    simp only [Bool.false_eq_true, if_false, sin_real, cos_real]
+    rw [htau, hτ1.1, hτ1.2, ← sin_add, ← cos_add, hτ2, hinv (σ1 + σ12)]
+    have e1 : σ12 + E2v - L.E1 - (-(σ1 + σ12 - tauOf L K (σ1 + σ12)) - L.E1) = σ12 := by rw [hE2]; ring
+    have e2 : -(σ1 + σ12 - tauOf L K (σ1 + σ12)) = E2v := by rw [hE2]; ring
+    rw [e1, e2]
+  show tailX L K un (arcOfX L K false P.s12 0 0).1 (arcOfX L K false P.s12 0 0).2.1 (arcOfX L K false P.s12 0 0).2.2.1 (arcOfX L K false P.s12 0 0).2.2.2 P.s12
+    ((arcOfX L K false P.s12 0 0).1 / degree) = P
+  rw [hB]
+  show tailX L K un σ12 (sin σ12) (cos σ12) E2v P.s12 (σ12 / degree) = P
+  rw [hPs, hP1]
+  congr 1
+  exact mul_div_cancel_right₀ a12 degree_ne
+
+/-- non-vacuity of the hypotheses of `xgenpos_arc_s12` / `xgenpos_distance_inverts_arc`: the sphere kernel on the equator -/
+example : (exLineX.ssig1 = sin 0 ∧ exLineX.csig1 = cos 0) ∧ (0 + exLineX.E1 = tauOf exLineX exEll 0) ∧
+    (exLineX.stau1 = sin (0 + exLineX.E1) ∧ exLineX.ctau1 = cos (0 + exLineX.E1)) ∧ exLineX.b ≠ 0 ∧ exLineX.E0 ≠ 0 ∧ EinvInvertsE exLineX exEll := by
+  refine ⟨⟨by simp [exLineX], by simp [exLineX]⟩, by simp [exLineX, tauOf, exEll], ⟨by simp [exLineX], by simp [exLineX]⟩, by simp [exLineX], by simp [exLineX], exEll_inverts⟩
+
+/-- **one more circuit** on the auxiliary sphere (same `sincosd` values, `a12 + 360`): same latitude and azimuth, the distance grows by
+    `2π·b·E0` (`= 4 b E(k)`), the unrolled longitude by exactly `360·(E − (e²/f1) sin α0 H0)` degrees, `E = ±1` the sense of the line;
+    the reduced `chi12` (no `LONG_UNROLL`) is unchanged -/
+theorem xgenpos_arc_circuit (L : LineX ℝ) (K : Ell ℝ) (a12 sk ck : ℝ) :
+    let P := genPositionX L K true a12 sk ck true
+    let Q := genPositionX L K true (a12 + 360) sk ck true
+    let p := genPositionX L K true a12 sk ck false
+    let q := genPositionX L K true (a12 + 360) sk ck false
+    Q.lat2 = P.lat2 ∧ Q.azi2 = P.azi2 ∧ Q.ssig2 = P.ssig2 ∧ Q.csig2 = P.csig2 ∧
+    Q.s12 - P.s12 = L.b * L.E0 * (360 * (degree : ℝ)) ∧
+    Q.lon2u - P.lon2u = 360 * (copysign 1 L.salp0 - L.e2 / L.f1 * L.salp0 * L.H0) ∧
+    q.chi12 = p.chi12 := by
+  intro P Q p q
+  simp only [P, Q, p, q, genPositionX_arc]
+  refine ⟨rfl, rfl, rfl, rfl, ?_, ?_, rfl⟩
+  · simp only [tailX]; ring
+  · simp only [tailX, if_true, lit_real, Nat.cast_one]
+    have := degree_ne
+    field_simp
+    ring
+
+/-- **the start longitude enters only as the term added at the end** (exact line): replacing `lon1` by any `x` leaves the unrolled
+    `lon2 − lon1` and every other output unchanged — `LONG_UNROLL` returns `lon1 + (unrolled λ12)` with the un-normalised `lon1` -/
+theorem xgenpos_lon1_translation (L : LineX ℝ) (K : Ell ℝ) (x : ℝ) (arcmode : Bool) (s sk ck : ℝ) (un : Bool) :
+    let P := genPositionX L K arcmode s sk ck un
+    let Q := genPositionX { L with lon1 := x } K arcmode s sk ck un
+    Q.lon2u = x + P.lon12 ∧ P.lon2u = L.lon1 + P.lon12 ∧ Q.lon12 = P.lon12 ∧ Q.lat2 = P.lat2 ∧ Q.azi2 = P.azi2 ∧ Q.s12 = P.s12 ∧ Q.a12 = P.a12 ∧
+    Q.m12 = P.m12 ∧ Q.M12 = P.M12 ∧ Q.M21 = P.M21 ∧ Q.S12 = P.S12 :=
+  ⟨rfl, rfl, rfl, rfl, rfl, rfl, rfl, rfl, rfl, rfl, rfl⟩
+
+/-- **a zero-length arc does not move** (exact line): with `(sk, ck) = (0, 1)`, on a line whose `H1` is `deltaH` at `σ1` (with `Δ(σ1)` as
+    `EllipticFunction::Delta` computes it) and whose `(somg1, cchi1)` is a positive multiple of `(sin α0 sin σ1, f1 Δ(σ1) cos σ1)`, away
+    from the degenerate end point -/
+theorem xgenpos_zero_arc (L : LineX ℝ) (K : Ell ℝ) (hH : L.H1 = K.deltaH L.ssig1 L.csig1 (delta L.k2 L.kp2 L.ssig1 L.csig1))
+    (hχ : ∃ r : ℝ, 0 < r ∧ L.somg1 = r * (L.salp0 * L.ssig1) ∧ L.cchi1 = r * (L.f1 * delta L.k2 L.kp2 L.ssig1 L.csig1 * L.csig1))
+    (hnd : RealLike.hypot L.salp0 (L.calp0 * L.csig1) ≠ 0) :
+    (genPositionX L K true 0 0 1 true).lon2u = L.lon1 ∧ (genPositionX L K true 0 0 1 true).lon12 = 0 := by
+  have hnd' : (RealLike.hypot L.salp0 (L.calp0 * L.csig1) = 0) = False := eq_false hnd
+  obtain ⟨r, hr, ho, hc⟩ := hχ
+  have hat : RealLike.atan2 (copysign 1 L.salp0 * L.somg1) L.cchi1 =
+      RealLike.atan2 (copysign 1 L.salp0 * (L.salp0 * L.ssig1)) (L.f1 * delta L.k2 L.kp2 L.ssig1 L.csig1 * L.csig1) := by
+    rw [ho, hc, show copysign 1 L.salp0 * (r * (L.salp0 * L.ssig1)) = r * (copysign 1 L.salp0 * (L.salp0 * L.ssig1)) by ring]
+    exact atan2_pos_mul r _ _ hr
+  have key : (genPositionX L K true 0 0 1 true).lon12 = 0 := by
+    rw [genPositionX_arc]
+    simp only [tailX, if_true, lit_real, Nat.cast_one, Nat.cast_zero, eqb_real, decide_eq_true_eq, mul_one, mul_zero,
+      add_zero, sub_zero, zero_mul, hnd', if_false, ← hH, sub_self, zero_add, zero_div, hat]
+  have h2 : (genPositionX L K true 0 0 1 true).lon2u = L.lon1 + (genPositionX L K true 0 0 1 true).lon12 := rfl
+  exact ⟨by rw [h2, key, add_zero], key⟩
+
+example : exLineX.H1 = exEll.deltaH exLineX.ssig1 exLineX.csig1 (delta exLineX.k2 exLineX.kp2 exLineX.ssig1 exLineX.csig1) ∧
+    (∃ r : ℝ, 0 < r ∧ exLineX.somg1 = r * (exLineX.salp0 * exLineX.ssig1) ∧
+      exLineX.cchi1 = r * (exLineX.f1 * delta exLineX.k2 exLineX.kp2 exLineX.ssig1 exLineX.csig1 * exLineX.csig1)) ∧
+    RealLike.hypot exLineX.salp0 (exLineX.calp0 * exLineX.csig1) ≠ 0 := by
+  refine ⟨by simp [exLineX, exEll], ⟨1, one_pos, by simp [exLineX], ?_⟩, by simp [exLineX, hypot_real]⟩
+  show (1 : ℝ) = 1 * (1 * delta (0 : ℝ) 1 0 1 * 1)
+  unfold delta
+  simp only [ltb_real, lit_real]
+  norm_num
+
+
+/-- **the unrolled longitude of the exact line is the continuous branch**: `|χ12 − E σ12| < π` for every `σ12`, every kernel; here the second
+    component of the `χ` direction carries the positive factor `f1·dn`, which `atan2` ignores up to the ratio of the components -/
+theorem xgenpos_unroll_within_half_turn (L : LineX ℝ) (K : Ell ℝ) (arcmode : Bool) (s sk ck : ℝ)
+    (h1 : L.ssig1 ^ 2 + L.csig1 ^ 2 = 1) (hk : arcmode = true → sk ^ 2 + ck ^ 2 = 1)
+    (hnd : NonDegenerateX L K arcmode s sk ck) (hs0 : L.salp0 ≠ 0) (hf1 : 0 < L.f1)
+    (hχ : ∃ r g1 : ℝ, 0 < r ∧ 0 < g1 ∧ L.somg1 = r * (L.salp0 * L.ssig1) ∧ L.cchi1 = r * (g1 * L.csig1)) :
+    let P := genPositionX L K arcmode s sk ck true
+    0 < P.dn2 → |P.chi12 - copysign 1 L.salp0 * P.sig12| < Real.pi := by
+  intro P hdn
+  have hu2 : P.ssig2 ^ 2 + P.csig2 ^ 2 = 1 := xgenpos_sig2_norm L K arcmode s sk ck true h1 hk hnd
+  obtain ⟨r, g1, hr, hg1, ho, hc⟩ := hχ
+  set E : ℝ := copysign 1 L.salp0 with hE
+  have hcpos : 0 < E * L.salp0 := copysign_mul_self_pos _ hs0
+  have hg2 : 0 < L.f1 * P.dn2 := mul_pos hf1 hdn
+  have hom : P.chi12 = E * (P.sig12 - (RealLike.atan2 P.ssig2 P.csig2 - RealLike.atan2 L.ssig1 L.csig1)
+      + (RealLike.atan2 (E * (L.salp0 * P.ssig2)) (L.f1 * P.dn2 * P.csig2) - RealLike.atan2 (E * L.somg1) L.cchi1)) := by
+    simp only [P, genPositionX, tailX, if_true, lit_real, Nat.cast_one, hE]
+  have hB1 : RealLike.atan2 (E * L.somg1) L.cchi1 = RealLike.atan2 (E * L.salp0 / g1 * L.ssig1) L.csig1 := by
+    rw [ho, hc, show E * (r * (L.salp0 * L.ssig1)) = (r * g1) * (E * L.salp0 / g1 * L.ssig1) by field_simp,
+      show r * (g1 * L.csig1) = (r * g1) * L.csig1 by ring]
+    exact atan2_pos_mul (r * g1) _ _ (mul_pos hr hg1)
+  have hB2 : RealLike.atan2 (E * (L.salp0 * P.ssig2)) (L.f1 * P.dn2 * P.csig2) = RealLike.atan2 (E * L.salp0 / (L.f1 * P.dn2) * P.ssig2) P.csig2 := by
+    rw [show E * (L.salp0 * P.ssig2) = (L.f1 * P.dn2) * (E * L.salp0 / (L.f1 * P.dn2) * P.ssig2) by field_simp]
+    exact atan2_pos_mul (L.f1 * P.dn2) _ _ hg2
+  have hz1 : L.ssig1 ≠ 0 ∨ L.csig1 ≠ 0 := by
+    by_contra h; push Not at h; rw [h.1, h.2] at h1; norm_num at h1
+  have hz2 : P.ssig2 ≠ 0 ∨ P.csig2 ≠ 0 := by
+    by_contra h; push Not at h; rw [h.1, h.2] at hu2; norm_num at hu2
+  have b1 := atan2_scale_bound (E * L.salp0 / g1) L.ssig1 L.csig1 (div_pos hcpos hg1) hz1
+  have b2 := atan2_scale_bound (E * L.salp0 / (L.f1 * P.dn2)) P.ssig2 P.csig2 (div_pos hcpos hg2) hz2
+  have key : P.chi12 - E * P.sig12 = E * ((RealLike.atan2 (E * L.salp0 / (L.f1 * P.dn2) * P.ssig2) P.csig2 - RealLike.atan2 P.ssig2 P.csig2)
+      - (RealLike.atan2 (E * L.salp0 / g1 * L.ssig1) L.csig1 - RealLike.atan2 L.ssig1 L.csig1)) := by
+    rw [hom, hB1, hB2]; ring
+  rw [key, abs_mul, copysign_abs_one, one_mul]
+  calc |_ - _| ≤ |RealLike.atan2 (E * L.salp0 / (L.f1 * P.dn2) * P.ssig2) P.csig2 - RealLike.atan2 P.ssig2 P.csig2| + |RealLike.atan2 (E * L.salp0 / g1 * L.ssig1) L.csig1 - RealLike.atan2 L.ssig1 L.csig1| := abs_sub _ _
+    _ < Real.pi := by linarith
+
+/-- non-vacuity: the equator of the unit sphere, a quarter circuit -/
+example : exLineX.ssig1 ^ 2 + exLineX.csig1 ^ 2 = 1 ∧ ((1 : ℝ) ^ 2 + 0 ^ 2 = 1) ∧ NonDegenerateX exLineX exEll true 90 1 0 ∧ exLineX.salp0 ≠ 0 ∧ 0 < exLineX.f1 ∧
+    (∃ r g1 : ℝ, 0 < r ∧ 0 < g1 ∧ exLineX.somg1 = r * (exLineX.salp0 * exLineX.ssig1) ∧ exLineX.cchi1 = r * (g1 * exLineX.csig1)) :=
+  ⟨by simp [exLineX], by norm_num, exLineX_nd _ _ _ _, by simp [exLineX], by simp [exLineX], 1, 1, one_pos, one_pos, by simp [exLineX], by simp [exLineX]⟩
+
+end ExactLine
+
+/-! ## Output ranges of the two line models -/
+
+section Ranges
+open GeoVerif.GeodLine GeoVerif.GeodLineX GeoVerif.Proofs.GeodLine GeoVerif.Proofs.GeodLineX
+
+/-- **`Math::atan2d` returns an angle in `[−180, 180]`** (model over ℝ), and in `[−90, 90]` when `x ≥ 0` -/
+theorem atan2d_range (y x : ℝ) : -180 ≤ (atan2d y x : ℝ) ∧ (atan2d y x : ℝ) ≤ 180 ∧ (0 ≤ x → -90 ≤ (atan2d y x : ℝ) ∧ (atan2d y x : ℝ) ≤ 90) := by
+  unfold atan2d
+  simp only [ltb_real, abs_real, signNeg_real, lit_real]
+  by_cases hsw : |x| < |y|
+  · -- swapped: x1 = y, y1 = x
+    simp only [hsw, decide_true, if_true]
+    by_cases hy : y < 0
+    · simp only [hy, decide_true, if_true]
+      obtain ⟨b, bp, bn⟩ := atan2_halfplane x (-y) (by linarith)
+      have hb := abs_le.mp (div_degree_bound _ b)
+      have hd := deg_pos
+      refine ⟨by push_cast; linarith [hb.1], by push_cast; linarith [hb.2], fun hx => ?_⟩
+      have : 0 ≤ RealLike.atan2 x (-y) / degree := div_nonneg (bp hx) hd.le
+      constructor <;> push_cast <;> linarith [hb.2]
+    · simp only [hy, decide_false, if_false, Bool.false_eq_true]
+      have hy' : 0 ≤ y := not_lt.mp hy
+      obtain ⟨b, bp, bn⟩ := atan2_halfplane x y hy'
+      have hb := abs_le.mp (div_degree_bound _ b)
+      have hd := deg_pos
+      refine ⟨by push_cast; linarith [hb.2], by push_cast; linarith [hb.1], fun hx => ?_⟩
+      have : 0 ≤ RealLike.atan2 x y / degree := div_nonneg (bp hx) hd.le
+      constructor <;> push_cast <;> linarith [hb.2]
+  · simp only [hsw, decide_false, if_false, Bool.false_eq_true]
+    by_cases hx : x < 0
+    · simp only [hx, decide_true, if_true]
+      obtain ⟨b, bp, bn⟩ := atan2_halfplane y (-x) (by linarith)
+      have hb := abs_le.mp (div_degree_bound _ b)
+      have hd := deg_pos
+      refine ⟨?_, ?_, fun h => absurd hx (not_lt.mpr h)⟩
+      · unfold copysign; rw [signNeg_real]
+        by_cases hy : y < 0
+        · have : RealLike.atan2 y (-x) / degree < 0 := div_neg_of_neg_of_pos (bn hy) hd
+          simp only [hy, decide_true, if_true, abs_real]; norm_num; linarith
+        · simp only [hy, decide_false, Bool.false_eq_true, if_false, abs_real]; norm_num; linarith [hb.2]
+      · unfold copysign; rw [signNeg_real]
+        by_cases hy : y < 0
+        · simp only [hy, decide_true, if_true, abs_real]; norm_num; linarith [hb.1]
+        · have : 0 ≤ RealLike.atan2 y (-x) / degree := div_nonneg (bp (not_lt.mp hy)) hd.le
+          simp only [hy, decide_false, Bool.false_eq_true, if_false, abs_real]; norm_num; linarith
+    · simp only [hx, decide_false, if_false, Bool.false_eq_true]
+      obtain ⟨b, _, _⟩ := atan2_halfplane y x (not_lt.mp hx)
+      have hb := abs_le.mp (div_degree_bound _ b)
+      exact ⟨by linarith [hb.1], by linarith [hb.2], fun _ => ⟨hb.1, hb.2⟩⟩
+
+/-- **ranges of the direct solution** (series line): for every line record, mode, length and kernel values, `azi2 ∈ [−180, 180]`; and
+    `lat2 ∈ [−90, 90]` when `f1 = 1 − f ≥ 0` and `tiny ≥ 0` (the second argument of `atan2d` is `f1·cos β2 ≥ 0`).  The returned longitude
+    without `LONG_UNROLL` is `AngNormalize(AngNormalize(lon1) + AngNormalize(lon12))`, whose range is C16's `angNormalize_spec`. -/
+theorem direct_ranges (L : Line ℝ) (arcmode : Bool) (s sk ck : ℝ) (un : Bool) :
+    let P := genPosition L arcmode s sk ck un
+    (-180 ≤ P.azi2 ∧ P.azi2 ≤ 180) ∧ (0 ≤ L.f1 → 0 ≤ L.tiny → -90 ≤ P.lat2 ∧ P.lat2 ≤ 90) := by
+  intro P
+  refine ⟨⟨(atan2d_range _ _).1, (atan2d_range _ _).2.1⟩, fun hf ht => ?_⟩
+  refine (atan2d_range _ _).2.2 (mul_nonneg hf ?_)
+  show 0 ≤ (if RealLike.eqb _ _ = true then L.tiny else RealLike.hypot _ _)
+  split_ifs
+  · exact ht
+  · rw [hypot_real]; exact Real.sqrt_nonneg _
+
+/-- **ranges of the direct solution** (exact line), for every kernel -/
+theorem xdirect_ranges (L : LineX ℝ) (K : Ell ℝ) (arcmode : Bool) (s sk ck : ℝ) (un : Bool) :
+    let P := genPositionX L K arcmode s sk ck un
+    (-180 ≤ P.azi2 ∧ P.azi2 ≤ 180) ∧ (0 ≤ L.f1 → 0 ≤ L.tiny → -90 ≤ P.lat2 ∧ P.lat2 ≤ 90) := by
+  intro P
+  refine ⟨⟨(atan2d_range _ _).1, (atan2d_range _ _).2.1⟩, fun hf ht => ?_⟩
+  refine (atan2d_range _ _).2.2 (mul_nonneg hf ?_)
+  show 0 ≤ (if RealLike.eqb _ _ = true then L.tiny else RealLike.hypot _ _)
+  split_ifs
+  · exact ht
+  · rw [hypot_real]; exact Real.sqrt_nonneg _
+
+example : (0 : ℝ) ≤ exLine.f1 ∧ (0 : ℝ) ≤ exLine.tiny ∧ (0 : ℝ) ≤ exLineX.f1 ∧ (0 : ℝ) ≤ exLineX.tiny := by
+  refine ⟨by simp [exLine], by simp [exLine], by simp [exLineX], by simp [exLineX]⟩
+
+end Ranges
 
 end GeoVerif.Props.C01
